@@ -48,7 +48,7 @@ func ruleUnReserveSameApp(c *Ctx) {
 		call := cs.Call
 		st := p.StateAt(fn, call)
 		key := "Queue.UnReserve in " + fn.Name
-		if Recv(call) == nil || len(call.Args) != 2 || st == nil {
+		if Recv(call) == nil || len(call.Args) < 2 || st == nil {
 			c.Check("C09.h", key, call, false, "unrecognised call shape")
 			continue
 		}
@@ -230,14 +230,28 @@ func ruleTrackerRemovalAgreement(c *Ctx) {
 	if fn := c.MustFunc("C05.e", "ugm.QueueTracker.canBeRemovedInternal"); fn != nil {
 		found := false
 		ast.Inspect(fn.Decl.Body, func(n ast.Node) bool {
-			ifs, ok := n.(*ast.IfStmt)
-			if !ok || found {
+			if found {
+				return true
+			}
+			// `if cond { return true }` or `return cond`
+			var cond ast.Expr
+			switch x := n.(type) {
+			case *ast.IfStmt:
+				cond = x.Cond
+			case *ast.ReturnStmt:
+				if len(x.Results) == 1 {
+					if be, isAnd := unparen(x.Results[0]).(*ast.BinaryExpr); isAnd && be.Op == token.LAND {
+						cond = x.Results[0]
+					}
+				}
+			}
+			if cond == nil {
 				return true
 			}
 			found = true
-			cj := p.conjuncts(ifs.Cond)
+			cj := p.conjuncts(cond)
 			got = append(got, cj)
-			c.Check("C05.e", "removal condition in canBeRemovedInternal", ifs, strings.Join(cj, " && ") == strings.Join(want, " && "), "condition is %v, expected %v", cj, want)
+			c.Check("C05.e", "removal condition in canBeRemovedInternal", n, strings.Join(cj, " && ") == strings.Join(want, " && "), "condition is %v, expected %v", cj, want)
 			return true
 		})
 		c.Check("C05.e", "canBeRemovedInternal has its condition", fn.Decl, found, "no condition found")
@@ -267,7 +281,7 @@ func ruleReservedUserHeadroom(c *Ctx) {
 		askT := T(askArg, st)
 		// checkHeadRooms(...) == true implies userHeadroom.FitInMaxUndef(res(ask)) with the parameter bound to the argument
 		ok := p.Holds(st, p.CallAtom(true, func(cl *ast.CallExpr, a Atom) bool {
-			return Recv(cl) != nil && len(cl.Args) == 1 && p.IsResOf(a.term(cl.Args[0]), askT) && p.reaches(a.term(Recv(cl)), "ugm.Manager.Headroom")
+			return Recv(cl) != nil && len(cl.Args) >= 1 && p.IsResOf(a.term(cl.Args[0]), askT) && p.reaches(a.term(Recv(cl)), "ugm.Manager.Headroom")
 		}, "resources.Resource.FitInMaxUndef"))
 		c.Check("C05.a2", "user headroom before "+shortFn(p.CalleeName(call))+" (reserved)", call, ok, "%s reached without checkHeadRooms(ask, <Manager.Headroom>, headRoom) on this ask; facts: %v", p.CalleeName(call), p.FactStrings(st))
 	}
@@ -321,7 +335,7 @@ func init() {
 			n++
 			st := p.StateAt(root, call)
 			upd := p.DoneCall(st, func(cl *ast.CallExpr) bool {
-				return len(cl.Args) == 1 && strings.HasSuffix(p.Src(cl.Args[0]), ".PlacementRules")
+				return len(cl.Args) >= 1 && strings.HasSuffix(p.Src(cl.Args[0]), ".PlacementRules")
 			}, "placement.AppPlacementManager.UpdateRules")
 			c.Check("C17.f", "placement rules rebuilt on every reload", call, upd != nil, "the partition update proceeds without UpdateRules(conf.PlacementRules) having run on every path: applications keep being placed by rules that are no longer configured")
 		}
